@@ -410,7 +410,11 @@ class RuleGen:
         if self.rng.random() < 0.5:
             run = self.block_run(idx, 1)
         t = self.times_value(run)
+        if isinstance(t, dict) and len(t) == 2 and self.rng.random() < 0.3:
+            t = {"max": t["max"], "min": t["min"]}          # key order is free
         if isinstance(node, (str, int)):
+            if self.rng.random() < 0.2:
+                return {node: [], "times": t}               # sibling spelling with an empty operand list
             return {node: {"times": t}}
         d = dict(node)
         d["times"] = t
@@ -674,6 +678,31 @@ def _readdress(insts: List[SInst]):
     for s in insts:
         s.addr = a
         a += s.nbytes
+
+
+def backtrack_risk(node) -> int:
+    """Product of the widths of all variable repetition ranges (max - min + 1) and of the orderings of any-order groups: a rough
+    measure of how many ways the regex engine can split one run of similar instructions (JASM's own 60 s budget is the limit)."""
+    import math
+    if isinstance(node, list):
+        r = 1
+        for x in node:
+            r *= backtrack_risk(x)
+        return r
+    if isinstance(node, dict):
+        r = 1
+        for k, v in node.items():
+            if k == "times":
+                if isinstance(v, dict):
+                    lo, hi = v.get("min", 1), v.get("max", 1)
+                    if isinstance(lo, int) and isinstance(hi, int) and hi > lo:
+                        r *= hi - lo + 1
+            else:
+                if k == "$and_any_order" and isinstance(v, list):
+                    r *= math.factorial(min(len(v), 6))
+                r *= backtrack_risk(v)
+        return r
+    return 1
 
 
 def pattern_cost(node) -> int:
